@@ -369,47 +369,54 @@ func judgeC04(ctx *core.Ctx, ti int, t *rt.Table, router, entry string, reqp *rt
 	}
 }
 
-// muxOwns tells whether net/http's ServeMux must hand both p and p+"/" to the container's dispatcher, given the
-// patterns the framework is expected to register for the table (a pattern for the fixed prefix of every root path,
-// with and without trailing slash when the prefix does not end in one; "/" for roots starting with a variable).
+// muxOwns tells whether net/http's ServeMux hands BOTH p and p+"/" to the container's dispatcher. It replays the
+// framework's registration policy in Add order: a service registers the fixed prefix of its root path (and prefix+"/"
+// when the prefix does not end in a slash), a root starting with a variable (or "/") registers "/", and once "/" is
+// registered later services register nothing. On the resulting pattern set net/http itself redirects p when only
+// p+"/" is a pattern; such pairs are net/http's business, not the framework's (DESIGN section 4.9).
 func muxOwns(t *rt.Table, p string) bool {
 	for _, tok := range strings.Split(p, "/") {
 		if tok == "." || tok == ".." {
 			return false // net/http cleans such paths with a redirect of its own
 		}
 	}
-	fixedOf := func(s *rt.SvcSpec) string {
-		root := s.RenderRoot()
+	patterns := map[string]bool{}
+	for i := range t.Svcs {
+		if patterns["/"] {
+			break
+		}
+		root := t.Svcs[i].RenderRoot()
+		fixed := root
 		if k := strings.Index(root, "{"); k >= 0 {
-			return root[:k]
+			fixed = root[:k]
 		}
-		return root
-	}
-	for i := range t.Svcs {
-		if fixedOf(&t.Svcs[i]) == p {
-			return true // some root registers exactly p (and p + "/")
+		if fixed == "/" || fixed == "" {
+			patterns["/"] = true
+			continue
+		}
+		patterns[fixed] = true
+		if !strings.HasSuffix(fixed, "/") {
+			patterns[fixed+"/"] = true
 		}
 	}
-	for i := range t.Svcs {
-		// a prefix registered as subtree only ("/a/" for /a/{x} or for a root declared "/a/"): net/http itself redirects "/a"
-		if fixed := fixedOf(&t.Svcs[i]); strings.HasSuffix(fixed, "/") && p+"/" == fixed {
+	subtree := func(path string) bool {
+		for pat := range patterns {
+			if strings.HasSuffix(pat, "/") && strings.HasPrefix(path, pat) {
+				return true
+			}
+		}
+		return false
+	}
+	// p: an exact pattern, or (no redirect pending) some subtree pattern above it
+	if !patterns[p] {
+		if patterns[p+"/"] {
+			return false // net/http answers 301 to p+"/"
+		}
+		if !subtree(p) {
 			return false
 		}
 	}
-	for i := range t.Svcs {
-		fixed := fixedOf(&t.Svcs[i])
-		if fixed == "/" || fixed == "" {
-			return true
-		}
-		if strings.HasSuffix(fixed, "/") {
-			if strings.HasPrefix(p, fixed) && len(p) > len(fixed) {
-				return true
-			}
-		} else if p == fixed || strings.HasPrefix(p, fixed+"/") {
-			return true
-		}
-	}
-	return false
+	return subtree(p + "/")
 }
 
 // c14: by default a trailing slash on the request path changes nothing.
